@@ -1033,3 +1033,72 @@ Proof.
   - destruct H as (g & ->). reflexivity.
   - destruct H as (s' & ->). reflexivity.
 Qed.
+
+(* ---------- a static sufficient condition for [safe] ----------
+   One instruction adds at most max(1, locals of an INITSLOT of the program) items and at most one frame. *)
+Definition max_locals (P : code) : Z :=
+  fold_right (fun i m => match i with IInitSlot nl _ => Z.max (Z.of_nat nl) m | _ => m end) 1 P.
+
+Lemma max_locals_ge1 P : 1 <= max_locals P.
+Proof. induction P as [|i P IH]; simpl; [lia|]. destruct i; lia. Qed.
+
+Lemma max_locals_in P nl na : In (IInitSlot nl na) P -> Z.of_nat nl <= max_locals P.
+Proof.
+  induction P as [|i P IH]; simpl; [tauto|]. intros [->|H]; [lia|].
+  specialize (IH H). destruct i; lia.
+Qed.
+
+Lemma rev_top_zlen n s s' : rev_top n s = Some s' -> zlen s' = zlen s.
+Proof.
+  unfold rev_top. destruct (n <=? length s)%nat; [|discriminate]. intros H; inv H.
+  unfold zlen. rewrite app_length, rev_length. rewrite <- (firstn_skipn n s) at 3. rewrite app_length. lia.
+Qed.
+
+Lemma zlen_list_set {A} n (v : A) l : zlen (list_set n v l) = zlen l.
+Proof. unfold zlen. now rewrite list_set_length. Qed.
+
+Ltac grow_fin :=
+  unfold footprint; cbn [stk locs args callers frames_size]; unfold frame_size; cbn [f_locs Target.f_args];
+  rewrite ?zlen_cons, ?zlen_nil, ?zlen_list_set; lia.
+
+Lemma exec_growth i st st' K : 1 <= K -> (forall nl na, i = IInitSlot nl na -> Z.of_nat nl <= K) ->
+  exec_instr i st = Next st' ->
+  footprint st' <= footprint st + K /\ zlen (callers st') <= zlen (callers st) + 1.
+Proof.
+  intros HK Hi H. destruct st as [pc0 l0 a0 s0 c0].
+  destruct i; cbn [exec_instr stk locs args callers pc] in H;
+    unfold arith2, arith1, Target.push_int, set_stk, Target.jump in H; cbn [stk locs args callers pc] in H;
+    repeat match type of H with
+           | context [match ?x with _ => _ end] => destruct x eqn:?; try discriminate H
+           end;
+    try (inv H; split; grow_fin).
+  all: try (inv H; match goal with E : rev_top _ _ = Some _ |- _ => apply rev_top_zlen in E end; split; grow_fin).
+  - (* INITSLOT *) inv H. specialize (Hi _ _ eq_refl). split; [|grow_fin].
+    unfold footprint. cbn [stk locs args callers]. rewrite zlen_repeat.
+    pose proof (zlen_firstn_skipn na s0). rewrite !zlen_nil. lia.
+  - (* RET to a caller *) inv H. pose proof (zlen_nonneg l0). pose proof (zlen_nonneg a0). split; grow_fin.
+Qed.
+
+Lemma step_growth P st st' : Target.step P st = Next st' ->
+  footprint st' <= footprint st + max_locals P /\ zlen (callers st') <= zlen (callers st) + 1.
+Proof.
+  unfold Target.step. pose proof (max_locals_ge1 P) as HK.
+  destruct (nth_error P (pc st)) as [i|] eqn:Hi.
+  - apply exec_growth; [exact HK|]. intros nl na ->. apply (max_locals_in P nl na). eapply nth_error_In; eassumption.
+  - destruct (pc st =? length P)%nat; [|discriminate]. apply exec_growth; [exact HK|discriminate].
+Qed.
+
+(* a run of n steps from a state with enough room stays within the limits *)
+Theorem safe_of_bound P : forall n st,
+  footprint st + Z.of_nat n * max_locals P <= MaxStackSize ->
+  zlen (callers st) + 1 + Z.of_nat n <= MaxInvocationStackSize ->
+  safe P n st = true.
+Proof.
+  pose proof (max_locals_ge1 P) as HK.
+  induction n as [|n IH]; intros st Hf Hd; cbn [safe].
+  - unfold within. apply andb_true_intro. split; lia.
+  - apply andb_true_intro. split; [unfold within; apply andb_true_intro; split; nia|].
+    destruct (Target.step P st) as [st'| |] eqn:Hs; try reflexivity.
+    destruct (step_growth P st st' Hs) as [H1 H2]. apply IH; nia.
+Qed.
+
